@@ -56,6 +56,7 @@ func main() {
 	}
 	env := harness.FromEnv(id, tier)
 	run := report.New(id, tier, env.Seed, c.level)
+	run.NoEvidence = replay != ""
 	cx := &ctx{env: env, run: run, replay: replay}
 	code := 2
 	func() {
